@@ -117,7 +117,7 @@ func vxH_C03_blockedWriter() {
 	c := ci.(*collection)
 	pre := &segment{}
 	pre.mutate(OperationSet, []byte{'p'}, []byte{'v'})
-	c.stackDirtyTop = &segmentStack{options: c.options, refs: 1, a: []Segment{pre}}
+	c.stackDirtyTop = &segmentStack{options: c.options, refs: 1, a: []Segment{pre}, numBatches: 1}
 	c.Start()
 	var mu sync.Mutex
 	done := false
